@@ -60,6 +60,25 @@ Definition is_write (o : op) : bool :=
 Definition with_hdt (im : image) (hd : option dtype) : image :=
   match hd with Some d => mkI (i_src im) (i_fmt im) d (i_aff im) (i_cache im) | None => im end.
 
+Lemma img_at_lt w s im : img_at w s = Some im -> (s < length (w_imgs w))%nat.
+Proof.
+  unfold img_at. intros H. destruct (Nat.lt_ge_cases s (length (w_imgs w))) as [Hl|Hl]; [exact Hl|].
+  rewrite nth_overflow in H by lia. discriminate.
+Qed.
+
+(* the image slots after a save: only the saving image's slot may change (it is re-pointed) *)
+Definition imgs_after (g : cfg) (w : world) (s t : nat) (im0 : image) (v : option nat) : list (option image) :=
+  if repoints g im0 (pi_fmt (pinfo_of g t)) t then upd s (Some (repointed im0 v)) (w_imgs w) else w_imgs w.
+
+Lemma imgs_after_other g w s t im0 v s' : s' <> s -> nth s' (imgs_after g w s t im0 v) None = nth s' (w_imgs w) None.
+Proof. intros H. unfold imgs_after. destruct (repoints _ _ _ _); [now apply nth_upd_other|reflexivity]. Qed.
+Lemma imgs_after_same g w s t im0 v : img_at w s = Some im0 ->
+  nth s (imgs_after g w s t im0 v) None = Some (if repoints g im0 (pi_fmt (pinfo_of g t)) t then repointed im0 v else im0).
+Proof.
+  intros H. unfold imgs_after. destruct (repoints _ _ _ _); [|exact H].
+  apply nth_upd_same. eapply img_at_lt; eauto.
+Qed.
+
 (* inversion of a save (with the fix): refused with nothing changed, or one file replaced *)
 Lemma do_save_cases g w s t hd : g_fix g = true ->
   (exists e, do_save g w s t hd = (w, ORefused e))
@@ -69,7 +88,9 @@ Lemma do_save_cases g w s t hd : g_fix g = true ->
         /\ denote g (w_fs w) (reshaped g (with_hdt im0 hd) (pi_fmt (pinfo_of g t))) = RVal v
         /\ writer_refuses g (pi_fmt (pinfo_of g t)) od = false
         /\ do_save g w s t hd =
-           (mkW (upd (fid g t) (Some (written g (pi_fmt (pinfo_of g t)) od v (i_aff im0))) (w_fs w)) (w_imgs w) (w_dead w),
+           (mkW (upd (fid g t) (Some (written g (pi_fmt (pinfo_of g t)) od v (i_aff im0))) (w_fs w))
+                (if repoints g im0 (pi_fmt (pinfo_of g t)) t then upd s (Some (repointed im0 v)) (w_imgs w) else w_imgs w)
+                (w_dead w),
             OSaved t (k_val (written g (pi_fmt (pinfo_of g t)) od v (i_aff im0))) od (i_aff im0)
                    (k_scl (written g (pi_fmt (pinfo_of g t)) od v (i_aff im0))))).
 Proof.
@@ -145,7 +166,9 @@ Definition decodes (g : cfg) (w : world) (o : op) (w' : world) (x : out) : Prop 
       /\ file_at w' (fid g t) = Some (written g (pi_fmt (pinfo_of g t)) d v0 a)
       /\ v = k_val (written g (pi_fmt (pinfo_of g t)) d v0 a) /\ k = k_scl (written g (pi_fmt (pinfo_of g t)) d v0 a)
       /\ (forall f, f <> fid g t -> file_at w' f = file_at w f)  (* no other file is touched *)
-      /\ w_imgs w' = w_imgs w.                                (* and the image objects are as before *)
+      /\ (forall s', s' <> s -> img_at w' s' = img_at w s')      (* no other image object changes *)
+      (* the saving image is as before, or (its proxy read the target) now holds the written data in memory *)
+      /\ img_at w' s = Some (if repoints g im0 (pi_fmt (pinfo_of g t)) t then repointed im0 v0 else im0).
 
 Lemma decodes_step g w o : g_fix g = true -> decodes g w o (fst (step g w o)) (snd (step g w o)).
 Proof.
@@ -157,7 +180,9 @@ Proof.
   inversion Hx; subst. exists im0, v0.
   split; [exact Hi|]. split; [exact Hd|]. split; [exact Ho|]. split; [reflexivity|].
   split; [unfold file_at; cbn [w_fs]; now apply nth_upd_same|]. split; [reflexivity|]. split; [reflexivity|].
-  split; [|reflexivity]. intros f Hne. unfold file_at; cbn [w_fs]. now apply nth_upd_other.
+  split; [intros f Hne; unfold file_at; cbn [w_fs]; now apply nth_upd_other|].
+  split; [intros s' Hne; unfold img_at; cbn [w_imgs]; now apply (imgs_after_other g w s t im0 v0)|].
+  unfold img_at; cbn [w_imgs]. now apply (imgs_after_same g w s t im0 v0).
 Qed.
 
 Lemma files_decode g ops w : g_fix g = true -> r_all (decodes g) g w ops.
@@ -166,47 +191,111 @@ Proof.
   intros w0 o _. split; [now apply decodes_step|exact I].
 Qed.
 
-(* ------------------------------------------------------------------ (3) the image stays usable after a save *)
-(* the S-C09c case: the image is a proxy of the target file itself, and the dtype written differs from the
-   dtype the proxy copied at load, or (integer storage) the re-computed scale factors differ from its own *)
-Definition stale_after (g : cfg) (im : image) (t : nat) (c : content) : Prop :=
-  exists p ds ks mm, i_src im = SProxy p ds ks mm /\ fid g p = fid g t
-    /\ (k_dt c <> ds \/ (is_int ds = true /\ k_scl c <> ks)).
-
-Lemma usable_after_save g w s t hd v d a k im0 :
-  g_fix g = true -> g_reshape_ok g = true ->
-  snd (do_save g w s t hd) = OSaved t v d a k -> img_at w s = Some im0 ->
-  ~ (g_mixed g = true /\ d = U1 /\ pi_fmt (pinfo_of g t) = Mgh) ->
-  (forall c, file_at (fst (do_save g w s t hd)) (fid g t) = Some c -> ~ stale_after g im0 t c) ->
-  img_at (fst (do_save g w s t hd)) s = Some im0
-  /\ denote g (w_fs (fst (do_save g w s t hd))) im0 = RVal v.
+Lemma img_at_in w s im : img_at w s = Some im -> In (Some im) (w_imgs w).
 Proof.
-  intros Hf Hr Hx Him Hclip Hns.
-  destruct (do_save_cases g w s t hd Hf) as [[e E]|(im1 & od & v0 & Hi & Hlt & Ho & Hd & Hw & E)];
-    rewrite E in *; cbn [fst snd] in *; [discriminate|].
-  rewrite Him in Hi. inversion Hi; subst im1. inversion Hx; subst.
-  set (c := written g (pi_fmt (pinfo_of g t)) d v0 (i_aff im0)) in *.
-  assert (Hv : k_val c = v0) by (apply written_val; exact Hclip).
-  destruct (written_dt_aff g (pi_fmt (pinfo_of g t)) d v0 (i_aff im0)) as [Hdt _]. fold c in Hdt.
-  assert (Hfile : file_at (mkW (upd (fid g t) (Some c) (w_fs w)) (w_imgs w) (w_dead w)) (fid g t) = Some c)
-    by (unfold file_at; cbn [w_fs]; now apply nth_upd_same).
-  specialize (Hns c Hfile).
-  split; [exact Him|]. rewrite Hv.
+  unfold img_at. intros H. destruct (Nat.lt_ge_cases s (length (w_imgs w))) as [Hl|Hl].
+  - rewrite <- H. now apply nth_In.
+  - rewrite nth_overflow in H by lia. discriminate.
+Qed.
+
+Lemma img_at_set w s im s' :
+  img_at (set_img w s im) s' = if Nat.eqb s' s then (if (s <? length (w_imgs w))%nat then Some im else None) else img_at w s'.
+Proof.
+  unfold img_at, set_img; cbn [w_imgs]. destruct (Nat.eqb_spec s' s) as [->|Hne].
+  - destruct (s <? length (w_imgs w))%nat eqn:E.
+    + apply Nat.ltb_lt in E. now apply nth_upd_same.
+    + apply Nat.ltb_ge in E. rewrite nth_overflow; [reflexivity|]. now rewrite upd_length.
+  - now apply nth_upd_other.
+Qed.
+
+(* ------------------------------------------------------------------ (3) the image stays usable after a save *)
+(* names of one file belong to one image class, and a proxy image is of the class of the name it was loaded
+   from (true of every initial world, kept by every step): then a save onto the proxy's own file is never a
+   class conversion, and the image object itself is re-pointed *)
+Definition names_wf (g : cfg) : Prop :=
+  forall p t, fid g p = fid g t -> pi_fmt (pinfo_of g p) = pi_fmt (pinfo_of g t).
+Definition classes_ok (g : cfg) (w : world) : Prop :=
+  forall s im p d k mm, img_at w s = Some im -> i_src im = SProxy p d k mm -> i_fmt im = pi_fmt (pinfo_of g p).
+
+Definition usable (g : cfg) (w : world) (o : op) (w' : world) (x : out) : Prop :=
+  forall s t hd v d a k, save_op o = Some (s, t, hd) -> x = OSaved t v d a k ->
+    ~ (g_mixed g = true /\ d = U1 /\ pi_fmt (pinfo_of g t) = Mgh) ->
+    exists im', img_at w' s = Some im' /\ denote g (w_fs w') im' = RVal v.
+
+Lemma fmt_eqb_refl f : fmt_eqb f f = true.
+Proof. destruct f; reflexivity. Qed.
+
+Lemma usable_step g w o :
+  g_fix g = true -> g_reshape_ok g = true -> g_repoint g = true -> names_wf g -> classes_ok g w ->
+  usable g w o (fst (step g w o)) (snd (step g w o)).
+Proof.
+  intros Hf Hr Hp Hn Hc s t hd v d a k Hs Hx Hclip.
+  destruct (decodes_step g w o Hf s t hd v d a k Hs Hx)
+    as (im0 & v0 & Hi & Hd & Ho & Ha & Hft & Hv & Hk & Hoth & _ & Hslot).
+  set (c := written g (pi_fmt (pinfo_of g t)) d v0 a) in *.
+  assert (Hv0 : v = v0) by (rewrite Hv; apply written_val; exact Hclip).
   (* the data read before the save: the class conversion does not change what the proxy is *)
   assert (Hd0 : denote g (w_fs w) im0 = RVal v0).
   { unfold reshaped in Hd. rewrite Hr in Hd. cbn [negb] in Hd. rewrite andb_false_r in Hd.
     unfold denote in *. destruct hd; exact Hd. }
-  unfold denote in *. cbn [w_fs]. destruct (i_src im0) as [vv|p ds ks mm] eqn:Es; [exact Hd0|].
-  unfold fresh_read in *. destruct (Nat.eq_dec (fid g p) (fid g t)) as [He|Hne].
-  - rewrite He, nth_upd_same by exact Hlt.
-    destruct (dtype_eqb (k_dt c) ds) eqn:Ed.
-    + destruct (is_int ds && negb (Nat.eqb (k_scl c) ks)) eqn:Ek; [|now rewrite Hv].
-      exfalso. apply Hns. exists p, ds, ks, mm. repeat split; try assumption. right.
-      apply andb_prop in Ek as [E1 E2]. split; [exact E1|]. intros Heq. rewrite Heq, Nat.eqb_refl in E2. discriminate.
-    + exfalso. apply Hns. exists p, ds, ks, mm. repeat split; try assumption. left.
-      intros Heq. rewrite Heq, dtype_eqb_refl in Ed. discriminate.
-  - rewrite nth_upd_other by exact Hne. exact Hd0.
+  destruct (repoints g im0 (pi_fmt (pinfo_of g t)) t) eqn:Er.
+  - exists (repointed im0 v0). split; [exact Hslot|]. rewrite Hv0. reflexivity.
+  - exists im0. split; [exact Hslot|]. rewrite Hv0.
+    unfold denote in *. destruct (i_src im0) as [vv|p ds ks mm] eqn:Es; [exact Hd0|].
+    unfold fresh_read in *. destruct (Nat.eq_dec (fid g p) (fid g t)) as [He|Hne].
+    + (* a proxy of the target file is always re-pointed *)
+      exfalso. unfold repoints in Er. rewrite Hp, Es, He, Nat.eqb_refl in Er.
+      rewrite (Hc s im0 p ds ks mm Hi Es), (Hn p t He), fmt_eqb_refl in Er. discriminate.
+    + specialize (Hoth (fid g p) Hne). unfold file_at in Hoth. rewrite Hoth. exact Hd0.
 Qed.
+
+Lemma classes_ok_step g w o : classes_ok g w -> classes_ok g (fst (step g w o)).
+Proof.
+  intros Hc. unfold step. destruct (w_dead w) eqn:Hdead; [exact Hc|].
+  assert (SET : forall s im, (forall p d k mm, i_src im = SProxy p d k mm -> i_fmt im = pi_fmt (pinfo_of g p)) ->
+                             classes_ok g (set_img w s im)).
+  { intros s im H s' im' p d k mm Hi Hs. rewrite img_at_set in Hi. destruct (Nat.eqb s' s).
+    - destruct (s <? length (w_imgs w))%nat; [|discriminate]. inversion Hi; subst. eapply H; eauto.
+    - eapply Hc; eauto. }
+  assert (SV : forall s t hd, classes_ok g (fst (do_save g w s t hd))).
+  { intros s t hd. unfold do_save. destruct (img_at w s) as [im0|] eqn:Hi; [|exact Hc].
+    destruct (negb (fid g t <? length (w_fs w))%nat); [exact Hc|].
+    destruct (out_dtype g _ _) as [od|]; [|exact Hc].
+    destruct (denote g (w_fs w) _) as [v0| |]; try exact Hc.
+    destruct (writer_refuses g _ _); [exact Hc|].
+    destruct (_ && negb (g_fix g)); [destruct (_ <? _); exact Hc|].
+    cbn [fst]. intros s' im' p d k mm Hi' Hs'. unfold img_at in Hi'; cbn [w_imgs] in Hi'.
+    destruct (repoints g im0 (pi_fmt (pinfo_of g t)) t); [|eapply Hc; eauto].
+    destruct (Nat.eq_dec s' s) as [->|Hne].
+    - rewrite nth_upd_same in Hi' by (eapply img_at_lt; eauto). inversion Hi'; subst. discriminate.
+    - rewrite nth_upd_other in Hi' by exact Hne. eapply Hc; eauto. }
+  destruct o; try apply SV.
+  - unfold do_load. destruct (file_at w (fid g p)); [|exact Hc].
+    destruct (s <? length (w_imgs w))%nat; [|exact Hc]. cbn [fst]. apply SET. intros p0 d0 k0 mm0 E. inversion E; subst. reflexivity.
+  - unfold do_fdata. destruct (img_at w s) as [im|] eqn:Hi; [|exact Hc].
+    destruct (i_cache im) as [|cv|cp cd]; [| exact Hc |destruct (alias_read g (w_fs w) cp cd); exact Hc].
+    destruct (denote g (w_fs w) im) as [v| |]; [|exact Hc|exact Hc]. cbn [fst]. apply SET. intros p d k mm E. exact (Hc s im p d k mm Hi E).
+  - destruct (img_at w s) as [im|] eqn:Hi; [|exact Hc]. cbn [fst]. apply SET. intros p d k mm E. exact (Hc s im p d k mm Hi E).
+  - destruct (img_at w s); exact Hc.
+  - destruct (img_at w s) as [im|] eqn:Hi; [|exact Hc]. cbn [fst]. apply SET. intros p d k mm E. exact (Hc s im p d k mm Hi E).
+  - destruct (img_at w s) as [im|] eqn:Hi; [|exact Hc]. cbn [fst]. apply SET. intros p d k mm E. exact (Hc s im p d k mm Hi E).
+  - destruct (img_at w s) as [im|]; [|exact Hc]. destruct (denote g (w_fs w) im); exact Hc.
+  - unfold do_tobytes. destruct (img_at w s) as [im|]; [|exact Hc].
+    destruct (i_fmt im); try exact Hc; destruct (denote g (w_fs w) im); exact Hc.
+Qed.
+
+Lemma usable_all g ops w :
+  g_fix g = true -> g_reshape_ok g = true -> g_repoint g = true -> names_wf g -> classes_ok g w ->
+  r_all (usable g) g w ops.
+Proof.
+  intros Hf Hr Hp Hn Hc. apply (r_all_lift (classes_ok g)); [|exact Hc].
+  intros w0 o Hc0. split; [now apply usable_step|now apply classes_ok_step].
+Qed.
+
+(* every world without proxy images (all initial worlds: empty slots or array images) has its classes right *)
+Lemma no_proxies_classes_ok g w :
+  (forall s im, img_at w s = Some im -> exists v, i_src im = SArray v) -> classes_ok g w.
+Proof. intros H s im p d k mm Hi Hs. destruct (H s im Hi) as [v E]. rewrite E in Hs. discriminate. Qed.
 
 (* ------------------------------------------------------------------ (4) no crash when no save shortens a file under a live map *)
 Definition cfg_wf (g : cfg) : Prop := 0 < g_page g /\ (forall f, 0 <= g_foot g f).
@@ -246,23 +335,6 @@ Fixpoint no_hazard (g : cfg) (w : world) (ops : list op) : Prop :=
   | [] => True
   | o :: r => hazard g w o = false /\ no_hazard g (fst (step g w o)) r
   end.
-
-Lemma img_at_in w s im : img_at w s = Some im -> In (Some im) (w_imgs w).
-Proof.
-  unfold img_at. intros H. destruct (Nat.lt_ge_cases s (length (w_imgs w))) as [Hl|Hl].
-  - rewrite <- H. now apply nth_In.
-  - rewrite nth_overflow in H by lia. discriminate.
-Qed.
-
-Lemma img_at_set w s im s' :
-  img_at (set_img w s im) s' = if Nat.eqb s' s then (if (s <? length (w_imgs w))%nat then Some im else None) else img_at w s'.
-Proof.
-  unfold img_at, set_img; cbn [w_imgs]. destruct (Nat.eqb_spec s' s) as [->|Hne].
-  - destruct (s <? length (w_imgs w))%nat eqn:E.
-    + apply Nat.ltb_lt in E. now apply nth_upd_same.
-    + apply Nat.ltb_ge in E. rewrite nth_overflow; [reflexivity|]. now rewrite upd_length.
-  - now apply nth_upd_other.
-Qed.
 
 Lemma backed_set_img g w s im :
   backed g w ->
@@ -309,6 +381,12 @@ Proof.
     set (c := written g (pi_fmt (pinfo_of g t)) od v (i_aff im0)).
     destruct (written_dt_aff g (pi_fmt (pinfo_of g t)) od v (i_aff im0)) as [Hdt _]. fold c in Hdt.
     intros s' im' p' d' Hi' Hc'. unfold img_at in Hi'; cbn [w_imgs w_fs] in *.
+    assert (Hi'' : nth s' (w_imgs w) None = Some im').
+    { destruct (repoints g im0 (pi_fmt (pinfo_of g t)) t); [|exact Hi'].
+      destruct (Nat.eq_dec s' s) as [->|Hne'].
+      - rewrite nth_upd_same in Hi' by (eapply img_at_lt; eauto). inversion Hi'; subst im'. discriminate.
+      - now rewrite nth_upd_other in Hi' by exact Hne'. }
+    clear Hi'. rename Hi'' into Hi'.
     pose proof (B s' im' p' d' Hi' Hc') as Hb.
     unfold alias_read in *. destruct (Nat.eq_dec (fid g p') (fid g t)) as [He|Hne].
     - rewrite He. rewrite nth_upd_same by exact Hlt.
